@@ -258,7 +258,11 @@ static int op_raw_big(int argc, tok_t *a, out_t *o) {
   long rel = 0;
   if (mpz_cmp(x, y) == 0) rel = 1; else { mpz_neg(y, y); if (mpz_cmp(x, y) == 0) rel = -1; }
   out_long(o, rel); out_ulong(o, g.pos);
-  mpz_clear(x); mpz_clear(y); return 0;
+  /* mpz_clear computes `_mp_alloc * BYTES_PER_MP_LIMB` in int: from 2^28 limbs on it hands a wrong size to the free
+     function (reported separately; not a C17 matter) — release the big blocks with their true size */
+  void (*ff)(void *, size_t); mp_get_memory_functions(NULL, NULL, &ff);
+  ff(x->_mp_d, (size_t) x->_mp_alloc * sizeof(mp_limb_t)); ff(y->_mp_d, (size_t) y->_mp_alloc * sizeof(mp_limb_t));
+  return 0;
 }
 
 const opdef_t ops_io2[] = {
